@@ -31,8 +31,14 @@ def definitionGenes (r : Rec) (o : Out) : List Nat :=
     | some g => locationContainsOther o.pc.core g.loc
     | none => false).map (·.1)
 
-def toProtos (r : Rec) (outs : List Out) : List CC.Proto :=
-  (outs.zipIdx).map fun x => ⟨x.2, fwdLoc x.1.pc.loc, fwdLoc x.1.pc.core, definitionGenes r x.1, x.1.pc.rule⟩
+/-- a reported protocluster as formation sees it.  The `id` field of C05's `Proto` stands for object
+    identity in C05's own histories; formation never looks at it, and here a protocluster is identified by
+    what it is (product, core, extent, definition genes), so that the list of protoclusters of a re-ordered
+    ruleset is a rearrangement of the original list -/
+def toProto (r : Rec) (o : Out) : CC.Proto :=
+  ⟨0, fwdLoc o.pc.loc, fwdLoc o.pc.core, definitionGenes r o, o.pc.rule⟩
+
+def toProtos (r : Rec) (outs : List Out) : List CC.Proto := outs.map (toProto r)
 
 /-- the genes inside an area -/
 def genesIn (r : Rec) (l : Loc) : List Nat := (r.genes.filter fun g => locationContainsOther l g.loc).map (·.id)
@@ -44,13 +50,20 @@ structure Result where
   /-- per region: location and the positions (in `cands`) of its candidate clusters -/
   regions : List (Loc × List Nat)
 
+/-- the record handed to `create_regions`: the candidate clusters, numbered in the order formation returned them -/
+def stateOf (r : Rec) (cands : List CC.Cand) : Regions.State :=
+  let feats : List Regions.Feat := (cands.zipIdx).map fun x => ⟨x.2, .cand, x.1.loc, x.1.members.map (·.id), [], []⟩
+  { len := r.len, circular := r.circular, cands := feats, nextId := feats.length }
+
+/-- everything after detection: candidate formation and region creation, from the reported protoclusters -/
+def late (r : Rec) (protos : List CC.Proto) : E (List CC.Cand × List (Loc × List Nat)) := do
+  let cands ← CC.formation protos r.wrap
+  let st' ← Regions.createRegions (stateOf r cands)
+  pure (cands, st'.regions.map fun f => (f.loc, f.kids))
+
 def run (r : Rec) (rules : List RuleM) : E Result := do
   let outs ← detectProtoclusters (withinReal r) r rules
-  let protos := toProtos r outs
-  let cands ← CC.formation protos r.wrap
-  let feats : List Regions.Feat := (cands.zipIdx).map fun x => ⟨x.2, .cand, x.1.loc, x.1.members.map (·.id), [], []⟩
-  let st : Regions.State := { len := r.len, circular := r.circular, cands := feats, nextId := feats.length }
-  let st' ← Regions.createRegions st
-  pure ⟨outs, protos, cands, st'.regions.map fun f => (f.loc, f.kids)⟩
+  let res ← late r (toProtos r outs)
+  pure ⟨outs, toProtos r outs, res.1, res.2⟩
 
 end ASV.Pipe
